@@ -118,7 +118,7 @@ type capVar struct {
 }
 
 func deadCaps(p *Pattern) []capVar {
-	var cs []capVar
+	cs := []capVar{{p, 0, TString, true}} // group 0: the matched text
 	for i, grp := range p.Groups {
 		cs = append(cs, capVar{p, i + 1, grp.T, true})
 	}
@@ -165,6 +165,7 @@ type genCtx struct {
 	// lastKeys remembers the key expressions of the latest write to a
 	// dimensioned metric, so that del / reads can address a datum that exists.
 	lastKeys map[*Metric][]Expr
+	zeroM *Metric // counter only ever indexed by $0
 }
 
 func (g *genCtx) f(name string) { g.feat[name]++ }
@@ -295,6 +296,9 @@ func (g *genCtx) capsOf(t Type) []capVar {
 	// innermost definitions shadow outer ones (by rendered name)
 	for i := len(g.caps) - 1; i >= 0; i-- {
 		c := g.caps[i]
+		if c.idx == 0 {
+			continue // $0 is only generated as a bare index key, see keyExprs
+		}
 		names := []string{fmt.Sprint(c.idx)}
 		if n := c.pat.Groups[c.idx-1].Name; n != "" {
 			names = append(names, n)
@@ -375,9 +379,9 @@ func (g *genCtx) keyExprs(m *Metric) []Expr {
 	for _, kt := range m.KeyTypes {
 		if kt == TInt {
 			ks = append(ks, g.intExpr(1))
-		} else {
-			ks = append(ks, g.strExpr(1))
+			continue
 		}
+		ks = append(ks, g.strExpr(1))
 	}
 	return ks
 }
@@ -692,7 +696,7 @@ func (g *genCtx) errRHS() Expr {
 func (g *genCtx) condition() (Expr, []capVar) {
 	r := g.r
 	mkCaps := func(p *Pattern) []capVar {
-		var cs []capVar
+		cs := []capVar{{p, 0, TString, false}} // group 0: the matched text
 		for i, grp := range p.Groups {
 			cs = append(cs, capVar{p, i + 1, grp.T, false})
 		}
@@ -775,6 +779,15 @@ func (g *genCtx) condition() (Expr, []capVar) {
 			return &Match{E: c, Pat: p, Neg: true}, deadCaps(p)
 		}
 		return &Match{E: c, Pat: p}, mkCaps(p)
+	case k == 17:
+		// a pattern without capture groups that matches a proper part of the
+		// line ($0 is that part, not the line)
+		p := &Pattern{ID: g.npat}
+		g.npat++
+		p.Regex = ev.PickOne(r, []string{`b=\w+`, `d=-?\d`, `t=\d+-\d+`, `[c-f]=\S`, `a=\d`})
+		p.Parts = []PatPart{{Lit: p.Regex}}
+		g.f("cond-pattern-without-groups")
+		return &PatCond{p}, mkCaps(p)
 	case k == 16:
 		// expr || e =~ /re/ : when expr holds the match is never evaluated, so
 		// its captures are declared in the block but must not be used there
@@ -839,9 +852,9 @@ func (g *genCtx) stmt(sc *scopeInfo) Stmt {
 		g.depth++
 		cs := &Cond{C: c}
 		cs.Then = g.block(r.Range(1, 3), &scopeInfo{})
-		if g.o.DeadCapRefs && len(caps) > 0 && caps[0].dead && r.Bool() {
+		if g.o.DeadCapRefs && len(caps) > 1 && caps[0].dead && r.Bool() {
 			// read a capture of the condition that may not have been evaluated
-			cv := ev.PickOne(r, caps)
+			cv := ev.PickOne(r, caps[1:])
 			m := g.metric("", TInt, 1)
 			if len(m.KeyTypes) == 1 && m.KeyTypes[0] == cv.t && m.Kind != "histogram" {
 				cr := &Capref{Pat: cv.pat, Idx: cv.idx, Named: cv.pat.Groups[cv.idx-1].Name != "", T: cv.t}
@@ -944,6 +957,7 @@ func (g *genCtx) stmt(sc *scopeInfo) Stmt {
 				case *Match:
 					usable = !cc.Neg
 				}
+				caps = append(caps, capVar{pt, 0, TString, !usable})
 				for i, grp := range pt.Groups {
 					caps = append(caps, capVar{pt, i + 1, grp.T, !usable})
 				}
@@ -1043,6 +1057,24 @@ func (g *genCtx) simple() Stmt {
 		g.f("failing-conversion")
 		m := g.metric("", TInt, 0)
 		return &Assign{M: m, Op: "=", E: &Call{Name: "int", Args: []Expr{g.strExpr(1)}, T: TInt}}
+	}
+	if k >= 97 {
+		// count by $0, the text the innermost pattern matched. The checker
+		// leaves $0 untyped, so it is only used as the bare key of a metric
+		// that is never indexed by anything else.
+		var zero *capVar
+		for i := len(g.caps) - 1; i >= 0 && zero == nil; i-- {
+			if g.caps[i].idx == 0 {
+				zero = &g.caps[i]
+			}
+		}
+		if zero != nil && !zero.dead {
+			if g.zeroM == nil {
+				g.zeroM = &Metric{Name: g.o.MetricPrefix + "z0", Kind: "counter", Type: TInt, Keys: []string{"k0"}, KeyTypes: []Type{TString}}
+			}
+			g.f("capref-$0")
+			return &IncDec{M: g.zeroM, Keys: []Expr{&Capref{Pat: zero.pat, Idx: 0, T: TString}}, Op: "++"}
+		}
 	}
 	return g.incOrAdd(g.metric("", TInt, ev.PickOne(r, []int{0, 1})))
 }
@@ -1238,6 +1270,10 @@ func generate(r *ev.RNG, o Opts) *Program {
 			m.Index = len(g.p.Metrics)
 			g.p.Metrics = append(g.p.Metrics, m)
 		}
+	}
+	if g.zeroM != nil && used[g.zeroM] {
+		g.zeroM.Index = len(g.p.Metrics)
+		g.p.Metrics = append(g.p.Metrics, g.zeroM)
 	}
 	// decorators that ended up unused cannot happen (each is used when defined)
 	g.p.Features = g.feat
